@@ -68,7 +68,7 @@ func selfdestruct(to string) prog.Op { return prog.Op{Op: "SELFDESTRUCT", To: to
 // StdMenu defines the standard contracts of the EthTx family of drivers.
 // Returns genesis contracts; names c0..c6.
 func StdMenu(u *prog.Universe, t *prog.Table, pfx string) []chain.GenContract {
-	for i := 0; i < 7; i++ {
+	for i := 0; i < 8; i++ {
 		u.Add(fmt.Sprintf("c%d", i), contractAddr(i))
 	}
 	// constructor + runtime for creations
@@ -139,7 +139,10 @@ func StdMenu(u *prog.Universe, t *prog.Table, pfx string) []chain.GenContract {
 			"e6": {call("STATICCALL", "z0", "e0", 0)},
 			"e7": {call("CALL", "v1", "e0", 0)},
 			"e8": {call("CALL", "fc", "e0", 1)},
-			"e9": {sstore("s1", 1), call("CALL", "c3", "e5", 2)},
+			"e9":  {sstore("s1", 1), call("CALL", "c3", "e5", 2)},
+			"e10": {call("CALL", "c3", "e1", 1), call("CALL", "c7", "e1", 1), call("CALL", "c7", "e0", 3)},
+			"e11": {call("CALL", "c7", "e2", 0), call("CALL", "c3", "e2", 2)},
+			"e12": {call("CALL", "vw", "e0", 0), sstore("s2", 1)},
 		},
 		// c5: creator
 		{
@@ -155,6 +158,12 @@ func StdMenu(u *prog.Universe, t *prog.Table, pfx string) []chain.GenContract {
 			"e1": {call("CALL", "c6", "e0", 0), opInvalid},
 			"e2": {call("DELEGATECALL", "c2", "e3", 0), call("CALL", "c0", "e2", 0)},
 		},
+		// c7: a second self-destructing contract holding another denomination (two destroyed accounts with leftovers in one tx)
+		{
+			"e0": {},
+			"e1": {selfdestruct("a3")},
+			"e2": {selfdestruct("c7")},
+		},
 	}
 	var out []chain.GenContract
 	for i, entries := range menu {
@@ -167,6 +176,9 @@ func StdMenu(u *prog.Universe, t *prog.Table, pfx string) []chain.GenContract {
 		}
 		if i == 3 {
 			gc.Bal2 = 50
+		}
+		if i == 7 {
+			gc.Bal2 = 30
 		}
 		out = append(out, gc)
 	}
@@ -529,7 +541,8 @@ func sortedKeys(m map[string][]prog.Op) []string {
 	return ks
 }
 
-func genOneEthTx(out *trace.W, tbl *prog.Table, r *rand.Rand, tid string, blocks int, stats map[string]int) {
+// NewEthWorld builds the chain, universe and contract menu of one EthTx history (genesis chosen by r).
+func NewEthWorld(tbl *prog.Table, r *rand.Rand, tid string, tweak func(*chain.Opts)) (*World, chain.Opts) {
 	u := prog.NewUniverse()
 	o := chain.DefaultOpts()
 	o.NAccts = 6
@@ -557,13 +570,34 @@ func genOneEthTx(out *trace.W, tbl *prog.Table, r *rand.Rand, tid string, blocks
 	u.Add("z0", freshAddr(100))
 	u.Add("v0", freshAddr(101))
 	u.Add("v1", freshAddr(102))
+	// vw: not an account in the standard genesis; the replica driver (C01) puts a vesting account here whose end time is
+	// seconds after the wall-clock instant of generation (decades before any header time)
+	u.Add("vw", freshAddr(103))
 	o.ExtraAccts = append(o.ExtraAccts, authtypes.NewBaseAccount(freshAddr(100).Bytes(), nil, 0, 0))
 	o.ExtraAccts = append(o.ExtraAccts, newVesting(freshAddr(101), chain.T0+1_000_000))
 	o.ExtraAccts = append(o.ExtraAccts, newVesting(freshAddr(102), chain.T0+7))
 	pfx := tid + "_"
 	o.Contracts = StdMenu(u, tbl, pfx)
+	if tweak != nil {
+		tweak(&o)
+	}
 	c := chain.New(o)
-	w := &World{C: c, U: u, T: tbl, Tid: tid, R: r}
+	return &World{C: c, U: u, T: tbl, Tid: tid, R: r}, o
+}
+
+// GenEthSpec / GenCosmosSend are the transaction generators of the EthTx histories, for other drivers.
+func (w *World) GenEthSpec(nextNonce map[string]uint64, baseFee int64, created *int) EthSpec {
+	return w.genEthSpec(nextNonce, baseFee, created)
+}
+
+// GenCosmosSend see GenEthSpec.
+func (w *World) GenCosmosSend(nextNonce map[string]uint64, baseFee int64) ([]byte, trace.M) {
+	return w.genCosmosSend(nextNonce, baseFee)
+}
+
+func genOneEthTx(out *trace.W, tbl *prog.Table, r *rand.Rand, tid string, blocks int, stats map[string]int) {
+	w, o := NewEthWorld(tbl, r, tid, nil)
+	c := w.C
 
 	g := w.Project()
 	g["ev"] = "Genesis"
@@ -640,6 +674,12 @@ func genOneEthTx(out *trace.W, tbl *prog.Table, r *rand.Rand, tid string, blocks
 	}
 	stats["traces"]++
 }
+
+// NewVesting is an empty continuous vesting account ending at end (unix seconds).
+func NewVesting(a common.Address, end int64) authtypes.GenesisAccount { return newVesting(a, end) }
+
+// FreshAddr exposes the address scheme of the non-contract test addresses.
+func FreshAddr(i int) common.Address { return freshAddr(i) }
 
 func newVesting(a common.Address, end int64) authtypes.GenesisAccount {
 	ba := authtypes.NewBaseAccount(a.Bytes(), nil, 0, 0)
@@ -773,7 +813,7 @@ func (w *World) genEthSpec(nextNonce map[string]uint64, baseFee int64, created *
 		s.Value = int64(r.Intn(3))
 		s.Gas = pick(r, uint64(53000), 100000, 200000, 300000)
 	default:
-		ci := r.Intn(7)
+		ci := r.Intn(8)
 		s.To = fmt.Sprintf("c%d", ci)
 		ents := sortedKeys(w.T.Ops[w.Tid+"_"+s.To])
 		s.Sel = pick(r, ents...)
